@@ -16,7 +16,7 @@ from ..flow import PathEnum, cond_facts
 from ..fold import try_fold
 from ..model import AnalysisError, Func, Repo, dotted, is_name, norm, walk_shallow
 from ..report import Ledger
-from ..util import kw, local_defs, names_in, path_calls, paths
+from ..util import end_pos, pos, kw, local_defs, names_in, path_calls, paths
 
 PROP = "C15"
 LEVEL = "other"
@@ -337,7 +337,7 @@ def _tmp_is_unique_sibling(f: Func, open_call, tmp_txt, cache_attrs):
 
 def _publish_calls(f: Func, cache_attrs):
     out = []
-    for c in sorted([n for n in walk_shallow(f.node) if isinstance(n, ast.Call)], key=lambda n: n.lineno):
+    for c in sorted([n for n in walk_shallow(f.node) if isinstance(n, ast.Call)], key=pos):
         d = dotted(c.func) or ""
         if d in ("os.replace", "os.rename", "shutil.move") and len(c.args) == 2 and norm(c.args[1]) in cache_attrs:
             if d != "shutil.move":
